@@ -12,8 +12,8 @@
 static void s_check(char* s) { __CPROVER_assert(S_P(s) == S_BUF(s), "MODEL: std::string operand not in SSO form"); __CPROVER_assume(S_P(s) == S_BUF(s)); }
 static void s_bound(uint64_t n) { __CPROVER_assert(n <= S_CAP, "BOUND: std::string longer than 15 bytes (outside the SSO-only string model)"); __CPROVER_assume(n <= S_CAP); }
 static void s_init(char* s) { S_P(s) = S_BUF(s); S_N(s) = 0; S_BUF(s)[0] = 0; }
-static void s_set(char* s, const char* src, uint64_t n) { s_bound(n); for (uint64_t i = 0; i < S_CAP; i++) if (i < n) S_BUF(s)[i] = src[i]; S_BUF(s)[n] = 0; S_N(s) = n; S_P(s) = S_BUF(s); }
-static void s_app(char* s, const char* src, uint64_t n) { s_check(s); uint64_t o = S_N(s); s_bound(o); s_bound(o + n); for (uint64_t i = 0; i < S_CAP; i++) if (i < n) S_BUF(s)[o + i] = src[i]; S_BUF(s)[o + n] = 0; S_N(s) = o + n; }
+static void s_set(char* s, const char* src, uint64_t n) { s_bound(n); for (uint64_t i = 0; i < n && i < S_CAP; i++) S_BUF(s)[i] = src[i]; S_BUF(s)[n] = 0; S_N(s) = n; S_P(s) = S_BUF(s); }
+static void s_app(char* s, const char* src, uint64_t n) { s_check(s); uint64_t o = S_N(s); s_bound(o); s_bound(o + n); for (uint64_t i = 0; i < n && i < S_CAP; i++) S_BUF(s)[o + i] = src[i]; S_BUF(s)[o + n] = 0; S_N(s) = o + n; }
 #ifdef STRING_LITERALS_OPAQUE
 /* cut: NUL-terminated literals (error-message text) are value-irrelevant in this harness; they become empty strings */
 static uint64_t s_len(const char* c) { return 0; }
